@@ -15,9 +15,9 @@ import (
 
 // argT is the type of a parameter of a fixed program.
 type argT struct {
-	Kind    string // "uint" | "int" | "bool" | "array" (of uint) | "struct" (of uint members)
+	Kind    string // "uint" | "int" | "bool" | "array" / "slice" (of uint) | "struct" (of uint members)
 	Bits    int    // total width
-	Elem    int    // array: element width (a multiple of 4)
+	Elem    int    // array, slice: element width (a multiple of 4)
 	Members []int  // struct: member widths
 }
 
@@ -29,6 +29,7 @@ type fixedProg struct {
 	XT, YT argT
 	Outs   []int
 	Ref    func(x, y uint64) []uint64
+	Sizes  [][]int // input sizes for unsized (slice) parameters, whole-circuit compile
 }
 
 func sext(v uint64, bits int) int64 {
@@ -134,6 +135,16 @@ func main(a uint4, b E) (uint4, uint3) { return a + b.p - b.r, b.q }`,
 		},
 	},
 	{
+		// Unsized evaluator parameter: instantiated from the sizes the
+		// evaluator announces (16 bits = two elements).
+		Name: "slicearg",
+		Src: `package main
+func main(a uint8, b []uint8) uint8 { return a + b[0] + b[1] }`,
+		XT: argT{Kind: "uint", Bits: 8}, YT: argT{Kind: "slice", Bits: 16, Elem: 8}, Outs: []int{8},
+		Ref:   func(x, y uint64) []uint64 { return []uint64{(x + (y & 255) + (y >> 8 & 255)) & 255} },
+		Sizes: [][]int{{8}, {16}},
+	},
+	{
 		Name: "xorconst",
 		Src: `package main
 func main(a uint4, b uint4) (uint4, bool) { return a ^ b ^ 0xf, !(a < b) }`,
@@ -170,13 +181,13 @@ var (
 )
 
 // compiledCircuit compiles MPCL source into a whole circuit (cached by key).
-func compiledCircuit(key, src string) (*circuit.Circuit, error) {
+func compiledCircuit(key, src string, sizes [][]int) (*circuit.Circuit, error) {
 	compMu.Lock()
 	defer compMu.Unlock()
 	if c, ok := compCache[key]; ok {
 		return c, nil
 	}
-	c, _, err := compiler.New(utils.NewParams()).Compile(src, nil)
+	c, _, err := compiler.New(utils.NewParams()).Compile(src, sizes)
 	if err != nil {
 		return nil, err
 	}
@@ -285,6 +296,7 @@ func enumSessions() []Session {
 	res = append(res,
 		mk("stream", "", "arrarg", "1010", "110001011110", 301),
 		mk("stream", "", "structarg", "0110", "10110111001", 302),
-		mk("stream", "", "xorconst", "1001", "0101", 303))
+		mk("stream", "", "xorconst", "1001", "0101", 303),
+		mk("stream", "", "slicearg", "10110010", "1000000001000000", 304))
 	return res
 }
